@@ -67,6 +67,60 @@ theorem link16_8 (hw : widths i.op = some [2, 1]) :
 
 end
 
+/-! ### fetching agrees with decoding -/
+
+theorem widths_some_lt (op : Nat) (ws : List Nat) (h : widths op = some ws) : op < 42 := by
+  by_cases hlt : op < 42
+  · exact hlt
+  · exfalso
+    unfold widths at h
+    have : table.find? (fun r => r.2.1 == op) = none := by
+      apply List.find?_eq_none.mpr
+      intro r hr
+      simp only [table, List.mem_cons, List.mem_nil_iff, or_false] at hr
+      rcases hr with rfl | rfl | rfl | rfl | rfl | rfl | rfl | rfl | rfl | rfl | rfl | rfl | rfl | rfl | rfl | rfl | rfl | rfl | rfl | rfl | rfl | rfl | rfl | rfl | rfl | rfl | rfl | rfl | rfl | rfl | rfl | rfl | rfl | rfl | rfl | rfl | rfl | rfl | rfl | rfl | rfl | rfl <;>
+        simp <;> omega
+    rw [this] at h
+    cases h
+
+
+/-- **Fetching agrees with decoding.** At the position of a decoded instruction, `fetch` yields that
+instruction's opcode, its operands (absent ones read 0) and its size. -/
+theorem fetch_decoded (f : Fn) (is : List Instr) (hd : decode f.insts.toList = some is) (i : Instr) (hi : i ∈ is) :
+    fetch f (i.pos : Int) = { op := i.op, a0 := i.args.headD 0, a1 := (i.args.drop 1).headD 0, size := i.size } := by
+  obtain ⟨hop, _⟩ := op_at f is hd i hi
+  obtain ⟨ws, hws, _⟩ := decode_mem _ _ hd i hi
+  have hlt := widths_some_lt _ _ hws
+  have hsh : shape i.op = ws := by
+    have := shape_eq_widths i.op hlt
+    rw [hws] at this
+    injection this with this
+    exact this.symm
+  have hsize : i.size = 1 + ws.sum := size_eq i ws hws
+  unfold fetch
+  dsimp only
+  rw [hop, hsh]
+  -- the six operand shapes
+  have hcases : ws = [] ∨ ws = [1] ∨ ws = [2] ∨ ws = [4] ∨ ws = [1, 1] ∨ ws = [2, 1] := by
+    rw [← hsh]
+    have : ∀ op, op < 42 → shape op = [] ∨ shape op = [1] ∨ shape op = [2] ∨ shape op = [4] ∨ shape op = [1, 1] ∨ shape op = [2, 1] := by
+      decide
+    exact this _ hlt
+  rcases hcases with rfl | rfl | rfl | rfl | rfl | rfl
+  · have ha := decode_mem_op0 _ _ hd i hi hws
+    simp [ha, hsize]
+  · have ha := link8 f is hd i hi hws
+    simp [ha, hsize]
+  · have ha := link16 f is hd i hi hws
+    simp [ha, hsize]
+  · have ha := link32 f is hd i hi hws
+    simp [ha, hsize]
+  · have ha := link8_8 f is hd i hi hws
+    simp [ha, hsize]
+  · have ha := link16_8 f is hd i hi hws
+    simp [ha, hsize]
+
+
 /-! ### the opcode table, as rewrite rules -/
 
 @[simp] theorem widths_Constant : widths 0 = some [2] := by decide
@@ -149,13 +203,14 @@ theorem AtInstr.succs_ok (ctx : AtInstr code t G f ft fr r i h) :
 
 /-- Where a simple instruction leaves the frame: at an instruction boundary whose tabulated height
 matches the stack pointer. -/
-def Landed (ft : FnTab) (f : Fn) (fr : Frame) (G : Nat) (o : SimpleOut) : Prop :=
-  ∃ p' h', (instrAt ft.is p').isSome = true ∧ ft.hm.get p' = some h' ∧ o.ip + 1 = (p' : Int) ∧
+def Landed (ft : FnTab) (f : Fn) (fr : Frame) (G : Nat) (i : Instr) (o : SimpleOut) : Prop :=
+  ∃ p' h', (instrAt ft.is p').isSome = true ∧ ft.hm.get p' = some h' ∧
+    (match o.next with | .seq => p' = i.pos + i.size | .jump t => p' = t) ∧
     o.regs.sp = fr.bp + f.numLocals + h' ∧ o.regs.globals.size = G
 
-theorem AtInstr.plain (ctx : AtInstr code t G f ft fr r i h) (pops pushes k : Nat)
-    (hs : succs i h = if h < pops then none else some [(i.pos + (1 + k), h - pops + pushes)]) :
-    pops ≤ h ∧ ∀ o, Eff r pops pushes o → o.ip = (i.pos : Int) + k → Landed ft f fr G o ∧ o.regs.fobjs = r.fobjs := by
+theorem AtInstr.plain (ctx : AtInstr code t G f ft fr r i h) (pops pushes : Nat)
+    (hs : succs i h = if h < pops then none else some [(i.pos + i.size, h - pops + pushes)]) :
+    pops ≤ h ∧ ∀ o, Eff r pops pushes o → o.next = .seq → Landed ft f fr G i o ∧ o.regs.fobjs = r.fobjs := by
   obtain ⟨l, hl, hall⟩ := ctx.succs_ok
   rw [hs] at hl
   split at hl
@@ -164,10 +219,10 @@ theorem AtInstr.plain (ctx : AtInstr code t G f ft fr r i h) (pops pushes k : Na
     injection hl with hl
     subst hl
     refine ⟨by omega, ?_⟩
-    intro o he hip
+    intro o he hn
     obtain ⟨h1, h2⟩ := hall _ _ (List.mem_singleton.mpr rfl)
     refine ⟨⟨_, _, h1, h2, ?_, ?_, ?_⟩, he.fo⟩
-    · rw [hip]; push_cast; omega
+    · rw [hn]
     · have := he.sp; have := ctx.spEq; omega
     · rw [he.gl, ctx.gl]
 
